@@ -5,6 +5,7 @@ import (
 	"encoding/json"
 	"errors"
 	"fmt"
+	"reflect"
 	"sync"
 	"time"
 
@@ -42,12 +43,25 @@ type CfgCase struct {
 
 var retryVals = []int{2, 3}
 var waitVals = []time.Duration{3 * time.Nanosecond, 7 * time.Nanosecond}
-var concVals = []int{2, 3}
+var concVals = []int{2, 0} // 0 = sequential is a setting like any other: it must win over an earlier positive one
 var modeVals = []bool{false, true} // continueOnError
 
 type cfgProbe struct {
 	prepTag, execTag, postTag, fbTag int // which function variant ran (-1 none)
 	execCalls                        int
+	sliceChanged                     bool
+	twin                             *flyt.NodeBuilder
+}
+
+func sameOpt(a, b any) bool {
+	va, vb := reflect.ValueOf(a), reflect.ValueOf(b)
+	if va.Kind() != vb.Kind() || va.Type() != vb.Type() {
+		return false
+	}
+	if va.Kind() == reflect.Func || va.Kind() == reflect.Ptr {
+		return va.Pointer() == vb.Pointer()
+	}
+	return true
 }
 
 var errProbe = errors.New("probe exec failure")
@@ -85,16 +99,17 @@ func buildPlain(cs *CfgCase) (*flyt.NodeBuilder, *cfgProbe) {
 		return func(any, error) (any, error) { pr.fbTag = tag; return "rescued", nil }
 	}
 	var opts []any
-	for _, s := range cs.Seq[:cs.Split] {
+	for si, s := range cs.Seq[:cs.Split] {
+		raw := (si+len(cs.Seq))%2 == 1 // the same option as a plain func(*BaseNode): accepted by the constructors too, in its position
 		switch s.Kind {
 		case sRetries:
-			opts = append(opts, flyt.WithMaxRetries(retryVals[s.Val]))
+			opts = append(opts, rawOr(flyt.WithMaxRetries(retryVals[s.Val]), raw))
 		case sWait:
-			opts = append(opts, flyt.WithWait(waitVals[s.Val]))
+			opts = append(opts, rawOr(flyt.WithWait(waitVals[s.Val]), raw))
 		case sConc:
-			opts = append(opts, flyt.WithBatchConcurrency(concVals[s.Val]))
+			opts = append(opts, rawOr(flyt.WithBatchConcurrency(concVals[s.Val]), raw))
 		case sMode:
-			opts = append(opts, flyt.WithBatchErrorHandling(modeVals[s.Val]))
+			opts = append(opts, rawOr(flyt.WithBatchErrorHandling(modeVals[s.Val]), raw))
 		case sPrep:
 			if s.Val == 0 {
 				opts = append(opts, flyt.WithPrepFunc(prepR(0)))
@@ -117,7 +132,17 @@ func buildPlain(cs *CfgCase) (*flyt.NodeBuilder, *cfgProbe) {
 			opts = append(opts, flyt.WithExecFallbackFunc(fb(s.Val)))
 		}
 	}
+	optsBefore := append([]any(nil), opts...)
 	b := flyt.NewNode(opts...)
+	pr.sliceChanged = false
+	for i := range opts {
+		if !sameOpt(opts[i], optsBefore[i]) {
+			pr.sliceChanged = true // the constructor modified the caller's option slice
+		}
+	}
+	if cs.Split > 0 {
+		pr.twin = flyt.NewNode(opts...) // a second node from the very same slice must come out configured the same way
+	}
 	for _, s := range cs.Seq[cs.Split:] {
 		switch s.Kind {
 		case sRetries:
@@ -151,6 +176,14 @@ func buildPlain(cs *CfgCase) (*flyt.NodeBuilder, *cfgProbe) {
 		}
 	}
 	return b, pr
+}
+
+// rawOr returns the option either as the named NodeOption type or as a plain func(*BaseNode).
+func rawOr(o flyt.NodeOption, raw bool) any {
+	if raw {
+		return (func(*flyt.BaseNode))(o)
+	}
+	return o
 }
 
 // fold computes the last-wins value of every parameter (-1 = never set).
@@ -221,6 +254,14 @@ func runCfgPlain(cs *CfgCase) (fs []finding) {
 	f := fold(cs.Seq)
 	route := routeOf(cs)
 	checkGetters(b, f, add, route)
+	if pr.sliceChanged {
+		add("option-slice-modified:"+route, "the constructor modified the option slice the caller passed (NewNode(opts...))")
+	}
+	if pr.twin != nil {
+		checkGetters(pr.twin, fold(cs.Seq[:cs.Split]), func(key, format string, a ...any) {
+			add("second-node-from-same-options:"+key, "a second node built from the same option slice: "+format, a...)
+		}, route)
+	}
 	// probe behaviour: exec (if configured) always fails
 	act, err := flyt.Run(context.Background(), b, flyt.NewSharedStore())
 	wantR := 1
@@ -328,16 +369,17 @@ func runCfgBatch(cs *CfgCase) (fs []finding) {
 	}
 	var opts []any
 	seq := cs.Seq
-	for _, s := range seq[:cs.Split] {
+	for si, s := range seq[:cs.Split] {
+		raw := (si+len(seq))%2 == 1
 		switch s.Kind {
 		case sRetries:
-			opts = append(opts, flyt.WithMaxRetries(retryVals[s.Val]))
+			opts = append(opts, rawOr(flyt.WithMaxRetries(retryVals[s.Val]), raw))
 		case sWait:
-			opts = append(opts, flyt.WithWait(waitVals[s.Val]))
+			opts = append(opts, rawOr(flyt.WithWait(waitVals[s.Val]), raw))
 		case sConc:
-			opts = append(opts, flyt.WithBatchConcurrency(concVals[s.Val]))
+			opts = append(opts, rawOr(flyt.WithBatchConcurrency(concVals[s.Val]), raw))
 		case sMode:
-			opts = append(opts, flyt.WithBatchErrorHandling(modeVals[s.Val]))
+			opts = append(opts, rawOr(flyt.WithBatchErrorHandling(modeVals[s.Val]), raw))
 		case sExec:
 			if s.Val == 0 {
 				opts = append(opts, flyt.WithExecFunc(execR(0)))
@@ -497,6 +539,7 @@ func runC19(c *Cfg) {
 	})
 	// last setting wins also AFTER the node has been run: concurrency / retries re-configured between two runs of
 	// the same batch node (builder method or option applied to its BaseNode), second run gated
+	defer setGCOff()() // gated cases below
 	reIdx := 0
 	for _, c1 := range []int{4, 1, 3} {
 		for _, c2 := range []int{2, 5} {
